@@ -492,8 +492,12 @@ def generate(root, outdir, probe=False, repo=None, force_registered=None):
     name = os.path.splitext(os.path.basename(root))[0] + ("_probe" if probe else "")
     os.makedirs(outdir, exist_ok=True)
     out = os.path.join(outdir, name + ".rs")
-    with open(out, "w") as f:
+    # atomic replace: the thorough tier runs a second Verus pass on the same root concurrently; a reader must never see a
+    # half-written file (it did once: "verus_builtin crate was not imported")
+    tmp = "%s.%d.tmp" % (out, os.getpid() * 1000 + (id(u) % 1000))
+    with open(tmp, "w") as f:
         f.write(text)
+    os.replace(tmp, out)
     # methods that exist in a container (impl / trait) of which some method is under contract, but are not registered
     # in any item region: a NEW entry here (w.r.t. the baseline) means e.g. an override of a default method whose
     # contract is assumed -- the verified text then no longer describes that type's behaviour
@@ -514,8 +518,11 @@ def generate(root, outdir, probe=False, repo=None, force_registered=None):
     report = {"unit": root, "generated": out, "probe": probe, "items": u.items, "trusted": trusted,
               "unregistered_methods": sorted(set(unregistered)),
               "files": sorted(os.path.relpath(p, VERIF) for p in u.included)}
-    with open(os.path.join(outdir, name + ".extract.json"), "w") as f:
+    rj = os.path.join(outdir, name + ".extract.json")
+    tmpj = "%s.%d.tmp" % (rj, os.getpid() * 1000 + (id(u) % 1000))
+    with open(tmpj, "w") as f:
         json.dump(report, f, indent=1)
+    os.replace(tmpj, rj)
     return out, report
 
 
